@@ -109,6 +109,7 @@ class Prop(object):
         for grp in range(6):
             u.append(('multi', {'grp': grp}))
         u.append(('embedded', {}))
+        u.append(('attest', {}))
         return u
 
     def run_case(self, check, case):
@@ -288,6 +289,64 @@ class Prop(object):
         self._embedded_in_key(r, case)
         self._header_octets_rsa(r, case)
         r.samples.append({'embedded': True})
+        return r
+
+    def c_attest(self, case):
+        """Reading a key's attestations (which hashes other signatures as data) leaves those signatures as they were received: same octets fed to the
+        hash, same packet octets, still verifying - in every order of asking."""
+        import itertools
+        import pgpy
+        from pgpy.constants import SignatureType, HashAlgorithm
+        r = Res()
+        alice, araw = K.pgpy_cert('ed25519a', uid='Alice Attests <alice@example.org>')
+        bob, braw = K.pgpy_cert('ed25519b', uid='Bob <bob@example.org>')
+        carol, craw = K.pgpy_cert('ecdsa_p256a', uid='Carol <carol@example.org>')
+        uid = alice.userids[0]
+        c1 = bob.certify(uid, SignatureType.Generic_Cert, created=K.dt(SIG_T + 10), hash=HashAlgorithm.SHA256, notation={'n@example.org': 'by bob'})
+        c2 = carol.certify(uid, SignatureType.Positive_Cert, created=K.dt(SIG_T + 20), hash=HashAlgorithm.SHA512)
+        uid |= c1
+        uid |= c2
+        uid |= alice.certify(uid, SignatureType.Attestation, attested_certifications=[c1, c2], created=K.dt(SIG_T + 30), hash=HashAlgorithm.SHA256)
+        blob = bytes(alice.pubkey)
+        issuers = {bob.fingerprint.keyid: bob.pubkey, carol.fingerprint.keyid: carol.pubkey}
+        menu = ['attested-list', 'attested-list-again', 'verify-certs', 'attests-to', 'export']
+        for seq in [t for k in (1, 2, 3) for t in itertools.permutations(menu, k)]:
+            if case.get('only') and list(seq) != case['only']:
+                continue
+            r.states += 1
+            k = pgpy.PGPKey.from_blob(blob)[0]
+            u = k.userids[0]
+            certs = [sg for sg in A.component_signatures(u) if sg.signer in issuers]
+            atts = [sg for sg in A.component_signatures(u) if sg.type == SignatureType.Attestation]
+            before = [(bytes(sg), bytes(sg.hashdata(u))) for sg in certs]
+            probs = []
+            for step, op in enumerate(seq):
+                r.transitions += 1
+                try:
+                    if op.startswith('attested-list'):
+                        got = list(u.attested_third_party_certifications)
+                        if len(got) != 2:
+                            probs.append('%d attested third-party certifications, 2 were attested' % len(got))
+                    elif op == 'attests-to':
+                        if not all(a.attests_to(sg) for a in atts for sg in certs):
+                            probs.append('the attestation does not attest to a certification it lists')
+                    elif op == 'verify-certs':
+                        for sg in certs:
+                            if not issuers[sg.signer].verify(u, sg):
+                                probs.append('a valid third-party certification no longer verifies')
+                    else:
+                        if bytes(k) != blob:
+                            probs.append('the key exports other octets than it was loaded from')
+                    now = [(bytes(sg), bytes(sg.hashdata(u))) for sg in certs]
+                    if now != before:
+                        probs.append('after %s the octets fed to the hash (or the packet octets) of a received certification changed' % op)
+                except Exception as e:
+                    probs.append('%s raised %r' % (op, e))
+                if probs:
+                    r.viol('attest', {'what': 'attest', 'op': op.split('-')[0]}, dict(case, only=list(seq[:step + 1])), 'operations %s on a key with an attestation: %s' % (list(seq[:step + 1]), probs[0]))
+                    break
+            r.outcomes['attest:' + ('ok' if not probs else 'violation')] += 1
+        r.samples.append({'attest': menu})
         return r
 
     def _header_octets_rsa(self, r, case):
